@@ -38,8 +38,10 @@ def show(t, depth=0):
         return "(" + ", ".join(show(f) for f in t[1]) + ")"
     if k == "arg":
         return t[2] or f"arg{t[1]}"
-    if k == "call":
+    if k in ("call", "pure"):
         return f"{t[1].split('::')[-1] if not t[1].startswith('<') else t[1]}({', '.join(show(a) for a in t[2])})"
+    if k == "sym":
+        return str(t[1])
     if k == "field":
         return f"{show(t[1])}.{t[2]}"
     if k == "discr":
@@ -59,8 +61,18 @@ def show(t, depth=0):
 
 def strip_transparent(t):
     """Look through clone/into/deref/... calls."""
-    while isinstance(t, tuple) and t[0] == "call" and t[4] and t[2]:
+    while isinstance(t, tuple) and len(t) == 5 and t[0] == "call" and t[4] and t[2]:
         t = t[2][0]
+    return t
+
+
+def deep_strip(t):
+    """strip_transparent applied recursively through the whole term."""
+    t = strip_transparent(t)
+    if isinstance(t, tuple):
+        if not t or t[0] in ("c", "sym", "arg", "fn"):
+            return t
+        return tuple(deep_strip(x) if isinstance(x, tuple) else x for x in t)
     return t
 
 
@@ -78,13 +90,30 @@ class PathState:
         return PathState(dict(self.env), self.conds, self.calls, self.trace, self.stores)
 
 
+PURE_SUFFIXES = ("::eq", "::ne", "cmp::max", "cmp::min")
+
+
+def is_pure_std(cal):
+    """Side-effect free std functions whose result is a function of the
+    argument values only: they get no call-site identity, so two calls with
+    the same argument terms denote the same value."""
+    if not cal:
+        return False
+    if cal.startswith("oq3_") or cal.startswith("<oq3_"):
+        return False
+    return cal.endswith(PURE_SUFFIXES) or " as std::cmp::PartialEq" in cal or " as core::cmp::PartialEq" in cal
+
+
 class SymExec:
-    def __init__(self, prog, body, max_paths=20000, max_visits=1, opaque_calls=True, call_model=None):
+    def __init__(self, prog, body, max_paths=20000, max_visits=1, opaque_calls=True, call_model=None, inline=None, depth=0, site_prefix=()):
         self.prog = prog
         self.body = body
         self.max_paths = max_paths
         self.max_visits = max_visits
         self.call_model = call_model
+        self.inline = inline          # callable(callee npath) -> bool : evaluate callee body on the abstract arguments
+        self.depth = depth
+        self.site_prefix = site_prefix
         self.truncated = False
 
     # ---- term construction
@@ -115,7 +144,7 @@ class SymExec:
             return tt[2][idx]
         if isinstance(tt, tuple) and tt[0] == "tuple" and idx < len(tt[1]):
             return tt[1][idx]
-        return ("field", t, idx)
+        return ("field", tt, idx)
 
     def operand(self, env, op):
         k = op.get("k")
@@ -165,11 +194,18 @@ class SymExec:
                 return a
             return ("cast", rv["to"], a)
         if k == "binop":
-            return ("bin", rv["op"], self.operand(env, rv["a"]), self.operand(env, rv["b"]))
+            return self.fold_bin(rv["op"], self.operand(env, rv["a"]), self.operand(env, rv["b"]), rv.get("ty", "?"))
         if k == "unop":
-            return ("un", rv["op"], self.operand(env, rv["a"]))
+            a = self.operand(env, rv["a"])
+            if rv["op"] == "Not" and isinstance(a, tuple) and a[0] == "c" and a[1] == "bool":
+                return ("c", "bool", 0 if a[2] else 1)
+            return ("un", rv["op"], a)
         if k == "discr":
-            return ("discr", self.place(env, rv["pl"]))
+            d = ("discr", self.place(env, rv["pl"]))
+            kd = self.known_discr(d)
+            if kd is not None:
+                return ("c", "isize", kd)
+            return d
         if k == "agg":
             fs = tuple(self.operand(env, f) for f in rv["fields"])
             if "adt" in rv:
@@ -180,6 +216,23 @@ class SymExec:
         if k == "repeat":
             return ("repeat", self.operand(env, rv["op"]))
         return ("?", k)
+
+    def fold_bin(self, op, a, b, ty):
+        ka = a[2] if isinstance(a, tuple) and a[0] == "c" and isinstance(a[2], int) else None
+        kb = b[2] if isinstance(b, tuple) and b[0] == "c" and isinstance(b[2], int) else None
+        if ka is not None and kb is not None:
+            f = {"Eq": lambda x, y: int(x == y), "Ne": lambda x, y: int(x != y), "Lt": lambda x, y: int(x < y), "Le": lambda x, y: int(x <= y),
+                 "Gt": lambda x, y: int(x > y), "Ge": lambda x, y: int(x >= y), "BitAnd": lambda x, y: x & y, "BitOr": lambda x, y: x | y}.get(op)
+            if f:
+                r = f(ka, kb)
+                return ("c", "bool" if op in ("Eq", "Ne", "Lt", "Le", "Gt", "Ge") else ty, r)
+            if op in ("Add", "Sub", "Mul"):
+                r = {"Add": ka + kb, "Sub": ka - kb, "Mul": ka * kb}[op]
+                if r >= 0:
+                    return ("c", ty, r)
+        if op in ("Eq", "Ne") and a == b:
+            return ("c", "bool", 1 if op == "Eq" else 0)
+        return ("bin", op, a, b)
 
     # ---- branch feasibility
     def known_discr(self, t):
@@ -263,22 +316,35 @@ class SymExec:
                 args = tuple(self.operand(st.env, a) for a in t["args"])
                 cal = body.callee_of(t) or ("indirect:" + json.dumps(t.get("callee_op"))[:80])
                 transparent = is_transparent(t.get("callee"), t.get("resolved"))
-                val = None
+                site = self.site_prefix + ((bb, v),)
+                alts = None
                 if self.call_model:
-                    val = self.call_model(self, st, t, cal, args, bb)
-                if val is None:
-                    val = ("call", cal, args, bb, transparent)
+                    alts = self.call_model(self, st, t, cal, args, site)
+                    if alts is not None and not isinstance(alts, list):
+                        alts = [((), alts, False)]
+                if alts is None:
+                    alts = self.default_call(cal, args, site, transparent, t)
                 st.calls = st.calls + ((cal, args, bb),)
-                if t["target"] is None:
-                    st.env["__diverged__"] = bb
-                    out.append(st)
-                    npaths += 1
-                else:
-                    if not t["dest"]["p"]:
-                        st.env[t["dest"]["l"]] = val
+                for ai, (extra, val, div) in enumerate(alts):
+                    s2 = st if ai == len(alts) - 1 else st.fork()
+                    ok = True
+                    for c in extra:
+                        if not self.consistent(s2, c):
+                            ok = False
+                            break
+                        s2.conds = s2.conds + (c,)
+                    if not ok:
+                        continue
+                    if div or t["target"] is None:
+                        s2.env["__diverged__"] = bb
+                        out.append(s2)
+                        npaths += 1
                     else:
-                        self.store(st.env, t["dest"], val)
-                    stack.append((t["target"], st, visits))
+                        if not t["dest"]["p"]:
+                            s2.env[t["dest"]["l"]] = val
+                        else:
+                            self.store(s2.env, t["dest"], val)
+                        stack.append((t["target"], s2, visits))
             elif k == "switch":
                 d = self.operand(st.env, t["discr"])
                 kd = self.known_discr(d)
@@ -300,8 +366,11 @@ class SymExec:
                     for cond, target in branches:
                         if body.blocks[target].term["k"] == "unreachable" and not body.blocks[target].stmts:
                             continue
+                        c = ("switch", d, cond, t["ty"], self.site_prefix + (bb,) if self.site_prefix else bb)
+                        if not self.consistent(st, c):
+                            continue
                         s2 = st.fork()
-                        s2.conds = s2.conds + (("switch", d, cond, t["ty"], bb),)
+                        s2.conds = s2.conds + (c,)
                         stack.append((target, s2, visits))
             elif k in ("unreachable", "resume", "terminate"):
                 st.env["__diverged__"] = bb
@@ -312,6 +381,130 @@ class SymExec:
                 out.append(st)
                 npaths += 1
         return out
+
+    def consistent(self, st, c):
+        """Is branch condition c compatible with the conditions already on the path
+        (same discriminant term constrained before)?"""
+        if c[0] != "switch":
+            return True
+        d, cond = c[1], c[2]
+        for o in st.conds:
+            if o[0] != "switch" or o[1] != d:
+                continue
+            oc = o[2]
+            if oc[0] == "eq" and cond[0] == "eq" and oc[1] != cond[1]:
+                return False
+            if oc[0] == "eq" and cond[0] == "ne" and oc[1] in cond[1]:
+                return False
+            if oc[0] == "ne" and cond[0] == "eq" and cond[1] in oc[1]:
+                return False
+        return True
+
+    def default_call(self, cal, args, site, transparent, t):
+        """[(extra conds, value term, diverged)] for a call."""
+        # intrinsics / trivial std
+        if cal.endswith("intrinsics::discriminant_value") and args:
+            d = ("discr", args[0])
+            kd = self.known_discr(d)
+            return [((), ("c", "isize", kd) if kd is not None else d, False)]
+        if cal.endswith(("::eq", "::ne")) and len(args) == 2 and self.structural_eq_ok(cal):
+            alts = self.eq_alts(strip_transparent(args[0]), strip_transparent(args[1]), site)
+            if alts is not None:
+                neg = cal.endswith("::ne")
+                return [(cs, ("c", "bool", int(v != neg)), False) for cs, v in alts]
+        if self.inline and not transparent and self.depth < 8 and cal in self.prog.bodies and self.inline(cal):
+            cb = self.prog.bodies[cal]
+            sub = SymExec(self.prog, cb, max_paths=self.max_paths, max_visits=self.max_visits, call_model=self.call_model, inline=self.inline, depth=self.depth + 1, site_prefix=site)
+            env = {}
+            for i, a in enumerate(args):
+                env[i + 1] = a
+            alts = []
+            for p in sub.paths(env):
+                div = "__diverged__" in p.env or "__cut__" in p.env
+                alts.append((p.conds, p.env.get(0, ("?", "ret")), div))
+            if sub.truncated:
+                self.truncated = True
+            return alts
+        if is_pure_std(cal):
+            a = args
+            name = cal
+            if cal.endswith("::ne") and len(args) == 2:
+                # ne(x,y) == !eq(x,y): share the eq term
+                eqname = cal[:-2] + "eq"
+                aa = tuple(sorted(args, key=repr))
+                if aa[0] == aa[1]:
+                    return [((), ("c", "bool", 0), False)]
+                et = ("pure", eqname, aa)
+                return [((("switch", et, ("eq", 0), "bool", site),), ("c", "bool", 1), False), ((("switch", et, ("ne", (0,)), "bool", site),), ("c", "bool", 0), False)]
+            if cal.endswith("::eq") and len(args) == 2:
+                aa = tuple(sorted(args, key=repr))
+                if aa[0] == aa[1]:
+                    return [((), ("c", "bool", 1), False)]
+                return [((), ("pure", cal, aa), False)]
+            if cal.endswith(("cmp::max", "cmp::min")):
+                aa = tuple(sorted(args, key=repr))
+                if aa[0] == aa[1]:
+                    return [((), aa[0], False)]
+                return [((), ("pure", "max" if cal.endswith("max") else "min", aa), False)]
+            return [((), ("pure", cal, args), False)]
+        return [((), ("call", cal, args, site, transparent), False)]
+
+    def structural_eq_ok(self, cal):
+        """eq/ne is structural equality: std impls, or a local #[derive(PartialEq)] body."""
+        if cal in self.prog.bodies:
+            return "PartialEq" in self.prog.bodies[cal].exp
+        if cal in ("std::cmp::PartialEq::ne", "core::cmp::PartialEq::ne", "std::cmp::PartialEq::eq"):
+            return True
+        return not (cal.startswith("oq3_") or cal.startswith("<oq3_"))
+
+    def eq_alts(self, a, b, site):
+        """[(conds, bool)] for structural equality; unknown leaf comparisons become
+        atomic conditions eq(x,y) on `pure` terms.  None if nothing is known."""
+        r = self.struct_eq(a, b)
+        if r is not None:
+            return [((), r)]
+        if isinstance(a, tuple) and isinstance(b, tuple) and a[0] == "adt" and b[0] == "adt" and a[1] == b[1]:
+            alts = [((), True)]
+            for x, y in zip(a[2], b[2]):
+                sub = self.eq_alts(strip_transparent(x), strip_transparent(y), site)
+                if sub is None:
+                    aa = tuple(sorted((strip_transparent(x), strip_transparent(y)), key=repr))
+                    et = ("pure", "eq", aa)
+                    sub = [((("switch", et, ("ne", (0,)), "bool", site),), True), ((("switch", et, ("eq", 0), "bool", site),), False)]
+                new = []
+                for cs, v in alts:
+                    if not v:
+                        new.append((cs, False))
+                        continue
+                    for cs2, v2 in sub:
+                        new.append((cs + cs2, v2))
+                alts = new
+            return alts
+        if isinstance(a, tuple) and isinstance(b, tuple) and a[0] == "sym" and b[0] == "sym":
+            aa = tuple(sorted((a, b), key=repr))
+            et = ("pure", "eq", aa)
+            return [((("switch", et, ("ne", (0,)), "bool", site),), True), ((("switch", et, ("eq", 0), "bool", site),), False)]
+        return None
+
+    def struct_eq(self, a, b):
+        """True / False / None(unknown) for structural equality of two terms."""
+        if a == b:
+            return True
+        if isinstance(a, tuple) and isinstance(b, tuple):
+            if a[0] == "adt" and b[0] == "adt":
+                if a[1] != b[1]:
+                    return False
+                res = True
+                for x, y in zip(a[2], b[2]):
+                    r = self.struct_eq(strip_transparent(x), strip_transparent(y))
+                    if r is False:
+                        return False
+                    if r is None:
+                        res = None
+                return res
+            if a[0] == "c" and b[0] == "c" and a[1] == b[1] and not isinstance(a[2], str) or (a[0] == "c" and b[0] == "c" and isinstance(a[2], str) and isinstance(b[2], str) and a[1] == b[1] == "&str"):
+                return a[2] == b[2]
+        return None
 
     def place_key(self, env, pl):
         return (pl["l"], tuple((p[0], p[1] if len(p) > 1 else None) for p in pl["p"]))
